@@ -197,8 +197,6 @@ def extract_vm(repo, trace, which):
     f_rs = src[rsx.line_start(src, i):k]
     trace.items.append((VM_RS, 'TracingVmEval::resize_slots'))
     n1 = f_rs.count('f32::NAN.into()')
-    if n1 != 2:
-        raise ExtractError('R-nanconst: resize_slots changed')
     f_rs = f_rs.replace('f32::NAN.into()', 'nan_of::<T>()')
     trace.fire('R-nanconst', n1)
     out.append(te + '\n\nimpl<T: From<f32> + Clone> TracingVmEval<T> {\n' + f_rs + '\n}\n')
@@ -257,6 +255,111 @@ def rewrite_eval(fe, trace, ty):
 
 
 INTERVAL_RS = 'fidget-core/src/types/interval.rs'
+BULK_RS = 'fidget-core/src/eval/bulk.rs'
+
+
+def extract_bulk_env(repo, trace):
+    """BulkOutput (+new), BulkEvalError (eval/bulk.rs); MismatchedSlices, BulkArgError (var/mod.rs)."""
+    b = rsx.clean(open('%s/%s' % (repo, BULK_RS)).read(), trace)
+    bo = rsx.get_item(b, r"^struct BulkOutput<'a, T>", 0, 'struct BulkOutput')
+    bo = bo.replace("struct BulkOutput<'a, T>", "pub struct BulkOutput<'a, T>").replace('    data:', '    pub data:').replace('    len:', '    pub len:')
+    a0, b0 = rsx.impl_block(b, r"^impl<'a, T> BulkOutput<'a, T>", 'impl BulkOutput')
+    i, j, k = rsx.find_fn(b, 'new', a0, b0)
+    f_new = b[rsx.line_start(b, i):k]
+    trace.items.append((BULK_RS, 'struct BulkOutput, BulkOutput::new'))
+    if not re.search(r'^struct BulkEvalError\(#\[from\] BulkArgError\);', b, re.M):
+        raise ExtractError('R-derive-from: BulkEvalError changed')
+    trace.fire('R-derive-from')
+    v = rsx.clean(open('%s/%s' % (repo, VAR_RS)).read(), trace)
+    ms = rsx.get_item(v, r'^struct MismatchedSlices\b', 0, 'struct MismatchedSlices')
+    ms = re.sub(r'#\[error\([^\]]*\)\]\n', '', ms, flags=re.S).replace('struct MismatchedSlices', 'pub struct MismatchedSlices')
+    bae = rsx.get_item(v, r'^enum BulkArgError\b', 0, 'enum BulkArgError')
+    bae = re.sub(r'^\s*#\[error\([^\]]*\)\]\n', '', bae, flags=re.M).replace('#[from] ', '').replace('enum BulkArgError', 'pub enum BulkArgError')
+    trace.items.append((VAR_RS, 'struct MismatchedSlices, enum BulkArgError'))
+    a1, b1 = rsx.impl_block(v, r'^impl VarMap\b', 'impl VarMap')
+    rsx.find_fn(v, 'check_bulk_arguments', a1, b1)
+    trace.drop('VarMap::check_bulk_arguments (Option let-else, iterator enumerate/find closures: external_body stub with a contract; bounded contract `total` exercises it)')
+    return (bo + "\n\nimpl<'a, T> BulkOutput<'a, T> {\n" + f_new + '\n}\n\n' + ms + '\n\n' + bae + '\n\npub struct BulkEvalError(pub BulkArgError);\n')
+
+
+def extract_bulk(repo, trace, bulk_kinds):
+    src = rsx.clean(open('%s/%s' % (repo, VM_RS)).read(), trace)
+    out = []
+    st = rsx.get_item(src, r'^struct BulkVmEval\b', 0, 'struct BulkVmEval')
+    st = re.sub(r'#\[derive\([^\]]*\)\]\n', '', st).replace('struct BulkVmEval<T>', 'pub struct BulkVmEval<T>')
+    st = re.sub(r'^(\s+)(slots|out):', r'\1pub \2:', st, flags=re.M)
+    a, b = rsx.impl_block(src, r'^impl<T: From<f32> \+ Clone> BulkVmEval<T>', 'impl BulkVmEval')
+    i, j, k = rsx.find_fn(src, 'resize_slots', a, b)
+    f_rs = src[rsx.line_start(src, i):k]
+    trace.items.append((VM_RS, 'BulkVmEval::resize_slots'))
+    n1 = f_rs.count('f32::NAN.into()')
+    f_rs = f_rs.replace('f32::NAN.into()', 'nan_of::<T>()')
+    trace.fire('R-nanconst', n1)
+    # R-itermut: `for x in V.iter_mut() { x.resize(size, e); }` -> index loop over V
+    pat = re.compile(r'        for (\w+) in self\.(\w+)\.iter_mut\(\) \{\n            \1\.resize\(size, nan_of::<T>\(\)\);\n        \}\n')
+    f_rs, n2 = pat.subn(lambda m: ('        let mut j_: usize = 0;   // R-itermut\n        while j_ < self.%s.len() {\n            self.%s[j_].resize(size, nan_of::<T>());\n            j_ += 1;\n        }\n' % (m.group(2), m.group(2))), f_rs)
+    if n2 != 2:
+        raise ExtractError('R-itermut: BulkVmEval::resize_slots loops changed')
+    trace.fire('R-itermut', n2)
+    out.append(st + '\n\nimpl<T: From<f32> + Clone> BulkVmEval<T> {\n' + f_rs + '\n}\n')
+    for cfg in bulk_kinds:
+        ev, ty = cfg['ev'], cfg['T']
+        stx = tuple_struct(src, ev).replace('struct %s<const N: usize>(BulkVmEval<%s>)' % (ev, ty), 'pub struct %s<const N: usize>(pub BulkVmEval<%s>)' % (ev, ty))
+        a, b = rsx.impl_block(src, r'^impl<const N: usize> BulkEvaluator for %s<N>' % ev, 'impl BulkEvaluator for ' + ev)
+        i, j, k = rsx.find_fn(src, 'eval', a, b)
+        fe = src[rsx.line_start(src, i):k]
+        trace.fire('R-traitfn')
+        trace.items.append((VM_RS, '%s::eval (BulkEvaluator)' % ev))
+        fe = rewrite_bulk_eval(fe, trace, ty)
+        out.append(stx + '\n\nimpl<const N: usize> %s<N> {\n' % ev + fe + '\n}\n')
+    return '\n'.join(out)
+
+
+def rewrite_bulk_eval(fe, trace, ty):
+    fe = fe.replace('Self::Tape', 'GenericVmTape<N>')
+    # R-deref: the generic parameter `V: Deref<Target = [T]>` is instantiated with `Vec<T>`
+    old = 'fn eval<V: std::ops::Deref<Target = [Self::Data]>>('
+    if fe.count(old) != 1 or fe.count('vars: &[V],') != 1:
+        raise ExtractError('R-deref: signature of bulk eval changed')
+    fe = fe.replace(old, 'fn eval(').replace('vars: &[V],', 'vars: &[Vec<%s>],' % ty)
+    trace.fire('R-deref')
+    # R-let: the closure of `vars.first().map(|v| v.len())` gets its postcondition
+    old = 'let size = vars.first().map(|v| v.len()).unwrap_or(0);'
+    if fe.count(old) != 1:
+        raise ExtractError('R-let: computation of `size` changed')
+    fe = fe.replace(old, 'let size = vars.first().map(|v: &Vec<%s>| -> (n: usize) ensures n == v@.len() { v.len() }).unwrap_or(0);   // R-let' % ty)
+    trace.fire('R-let')
+    # R-slotarray
+    old = '        let mut v = SlotArray(&mut self.0.slots);\n'
+    if fe.count(old) != 1:
+        raise ExtractError('R-slotarray: declaration of `v` changed')
+    fe = fe.replace(old, '')
+    fe, n = re.subn(r'\bv\[(\w+)\]', r'self.0.slots[\1 as usize]', fe)
+    trace.fire('R-slotarray', n + 1)
+    # R-copyprefix: `D[0..size].copy_from_slice(S)` -> `copy_prefix(&mut D, S, size)`
+    fe, n = re.subn(r'(self\.0\.(?:out|slots)\[\w+ as usize\])\[0\.\.size\]\s*\.copy_from_slice\(([^;]*)\);', r'copy_prefix(&mut \1, \2, size);   // R-copyprefix', fe)
+    if n != 2:
+        raise ExtractError('R-copyprefix: expected 2 copy_from_slice sites, found %d' % n)
+    trace.fire('R-copyprefix', n)
+    if ty == 'f32':
+        fe, n = re.subn(r'= -(self\.0\.slots\[\w+ as usize\]\[i\]);', r'= neg_(\1);', fe)
+        trace.fire('R-neg', n)
+    # R-tail: name the tail expression so that a proof block can follow it
+    old = '        Ok(BulkOutput::new(&self.0.out, size))\n    }'
+    if fe.count(old) != 1:
+        raise ExtractError('R-tail: tail of bulk eval changed')
+    fe = fe.replace(old, "        let ret_: Result<BulkOutput<'_, %s>, BulkEvalError> = Ok(BulkOutput::new(&self.0.out, size));   // R-tail\n        /*@tail*/\n        ret_\n    }" % ty)
+    trace.fire('R-tail')
+    # R-iter
+    old = '        for op in tape.iter_asm() {\n'
+    if fe.count(old) != 1:
+        raise ExtractError('R-iter: loop header of bulk eval changed')
+    fe = fe.replace(old, '        let mut i_: usize = tape.asm.tape.len();   // R-iter: iter_asm() == asm.tape.iter().cloned().rev()\n'
+                         '        while i_ > 0 {\n            i_ -= 1;\n            let op = tape.asm.tape[i_];\n')
+    trace.fire('R-iter')
+    return fe
+
+
 
 
 def interval_sigs(repo, trace):
@@ -282,31 +385,100 @@ def interval_sigs(repo, trace):
     return sigs
 
 
-def build(repo, trace, kinds=None):
+def annotate_bulk(text, cfg, trace):
+    """inject the per-arm ghost state, inner-loop invariants and arm-end lemma calls into `<ev>::eval` (bulk)"""
+    qual = cfg['ev'] + '::eval'
+    sub = lambda t: t.replace('@P@', cfg['p']).replace('@T@', cfg['T']).replace('@ENVPROOF@', cfg['envproof']).replace('@ENVINV@', cfg['envinv'])
+    i, j, k = locate_fn(text, qual)
+    seg = text[i:k]
+    out = []
+    pos = 0
+    n_arms = 0
+    for m in re.finditer(r'RegOp::(\w+)\(([^)]*)\) => \{', seg):
+        ob = m.end() - 1
+        cb = rsx.match_brace(seg, ob)
+        body = seg[ob + 1:cb]
+        nloops = body.count('for i in 0..size {')
+        if nloops > 1:
+            raise ExtractError('bulk arm %s has %d inner loops' % (m.group(1), nloops))
+        body = body.replace('for i in 0..size {', 'for i in 0..size\n' + sub(SP.BULK_INNER_INV) + '\n                    {')
+        out.append(seg[pos:ob + 1] + body.rstrip() + '\n' + sub(SP.BULK_ARM_END) + '\n                ')
+        pos = cb
+        n_arms += 1
+    out.append(seg[pos:])
+    seg = ''.join(out)
+    text = text[:i] + seg + text[k:]
+    trace.fire('inject-bulk-arm', n_arms)
+    return text
+
+
+GRAD_RS = 'fidget-core/src/types/grad.rs'
+
+
+def grad_sigs(repo, trace):
+    """real signatures of the Grad methods the gradient interpreter calls; the operator and From impls it uses must exist"""
+    src = rsx.clean(open('%s/%s' % (repo, GRAD_RS)).read(), trace)
+    a, b = rsx.impl_block(src, r'^impl Grad\b', 'impl Grad')
+    sigs = {}
+    for name in list(SP.G_UN_METHODS) + list(SP.G_BIN_METHODS):
+        i, j, k = rsx.find_fn(src, name, a, b)
+        sig = re.sub(r'\s+', ' ', src[i:j]).strip()
+        m = re.match(r'^(fn %s\([^)]*\)) -> [^{]+$' % name, sig)
+        if not m:
+            raise ExtractError('Grad::%s: unexpected signature %r' % (name, sig))
+        sigs[name] = m.group(1).replace('Self', 'Grad')
+        trace.items.append((GRAD_RS, 'Grad::%s (external_body stub with the real signature)' % name))
+    for hdr in ['impl std::ops::Add<Grad> for Grad', 'impl std::ops::Sub<Grad> for Grad', 'impl std::ops::Mul<Grad> for Grad',
+                'impl std::ops::Div<Grad> for Grad', 'impl std::ops::Mul<f32> for Grad', 'impl std::ops::Neg for Grad', 'impl From<f32> for Grad']:
+        if src.count(hdr) != 1:
+            raise ExtractError('grad.rs: `%s` lost' % hdr)
+        trace.items.append((GRAD_RS, hdr + ' (external_body stub)'))
+    return sigs
+
+
+def build(repo, trace, kinds=None, bulk_kinds=None):
     kinds = kinds or [SP.POINT, SP.make_interval(interval_sigs(repo, trace))]
+    bulk_kinds = [SP.BULK_POINT, SP.make_bulk_grad(grad_sigs(repo, trace))] if bulk_kinds is None else bulk_kinds
     which = [(c['ev'], c['T']) for c in kinds]
     enums = opcodes.parse(repo, trace)
     check_iter_asm(repo, trace)
-    text = ('use vstd::prelude::*;\nuse vstd::std_specs::ops::*;\nuse vstd::std_specs::cmp::*;\nuse vstd::std_specs::convert::*;\nuse core::cmp::Ordering;\nuse std::sync::Arc;\nverus! {\n'
+    text = ('#![feature(allocator_api)]\nuse vstd::prelude::*;\nuse vstd::std_specs::ops::*;\nuse vstd::std_specs::cmp::*;\nuse vstd::std_specs::convert::*;\nuse core::cmp::Ordering;\nuse std::sync::Arc;\nverus! {\n'
             + opcodes.render(enums).replace('\nenum ', '\npub enum ') + '\n' + extract_choice(repo, trace) + '\n' + extract_data(repo, trace) + '\n' + extract_errors(repo, trace) + '\n' + extract_floatext(repo, trace) + '\n'
-            + extract_vm(repo, trace, which) + '\n} // verus!\nfn main() {}\n')
+            + extract_vm(repo, trace, which) + '\n' + (extract_bulk_env(repo, trace) + '\n' + extract_bulk(repo, trace, bulk_kinds) if bulk_kinds else '')
+            + '\n} // verus!\nfn main() {}\n')
+    for cfg in bulk_kinds:
+        text = annotate_bulk(text, cfg, trace)
     inj = Injector(text, trace)
-    gen = SP.generate(enums, kinds)
+    gen = SP.generate(enums, kinds, bulk_kinds)
     for qual, (ret, stext) in gen['specs'].items():
         inj.spec(qual, ret, stext)
     for (qual, anchor, occ, before, proof) in gen['proofs']:
         inj.proof(qual, anchor, proof, occ=occ, before=before)
     for (qual, anchor, inv) in gen['loops']:
         inj.loop_inv(qual, anchor, inv)
+    for (qual, attr) in gen.get('attrs', []):
+        inj.attr(qual, attr)
     inj.append_items(gen['prelude'])
     obls = []
     texts = {'base': inj.s}
-    split_fns = [ev + '::eval' for ev, _ in which]
+    # which properties an obligation supports: point evaluator C01 C04 C10 C11 C20; interval evaluator C03 C04 C10 C11 C20;
+    # float-slice evaluator C01 C10 C11 C20; shared helpers: all
+    fn_props = {}
+    group_size = {}
+    for c in kinds:
+        fn_props[c['ev'] + '::eval'] = ['C03', 'C04', 'C10', 'C11', 'C20'] if c['T'] == 'Interval' else ['C01', 'C04', 'C10', 'C11', 'C20']
+        group_size[c['ev'] + '::eval'] = 6
+    for c in bulk_kinds:
+        fn_props[c['ev'] + '::eval'] = ['C01', 'C10', 'C11', 'C20'] if c['T'] == 'f32' else ['C05', 'C10', 'C11', 'C20']
+        group_size[c['ev'] + '::eval'] = 3
+    for f in ('BulkVmEval::resize_slots', 'BulkOutput::new', 'copy_prefix'):
+        fn_props[f] = ['C01', 'C05', 'C10', 'C11', 'C20']
+    split_fns = list(group_size)
     for f in gen['exec_fns']:
         if f in split_fns:
             continue
-        obls.append(Obligation('vm::' + f, 'vm', f, props=PROPS))
-    # R-split: the 54-arm loop body of each interpreter is verified in path partitions (6 arms each); every RegOp variant
+        obls.append(Obligation('vm::' + f, 'vm', f, props=fn_props.get(f, PROPS)))
+    # R-split: the 54-arm loop body of each interpreter is verified in path partitions; every RegOp variant
     # must own exactly one block arm
     variants = [v for v, _ in enums['RegOp']]
     for f in split_fns:
@@ -315,12 +487,13 @@ def build(repo, trace, kinds=None):
         hdrs = {m.group(1): m.group(0) for m in re.finditer(r'RegOp::(\w+)\([^)]*\) => \{', seg)}
         if sorted(hdrs) != sorted(variants) or count_match_arms(inj.s, f, 'match op {') != len(variants):
             raise ExtractError('R-split: arms of %s do not match the RegOp variant list' % f)
-        groups = [variants[x:x + 6] for x in range(0, len(variants), 6)]
+        gs = group_size[f]
+        groups = [variants[x:x + gs] for x in range(0, len(variants), gs)]
         for gi, grp in enumerate(groups):
             key = '%s_g%d' % (f.split('::')[0], gi)
             texts[key] = partition(inj.s, f, hdrs, grp, trace)
-            obls.append(Obligation('vm::%s[%s]' % (f, ','.join(grp)), 'vm', f, text_key=key, props=PROPS))
+            obls.append(Obligation('vm::%s[%s]' % (f, ','.join(grp)), 'vm', f, text_key=key, props=fn_props[f]))
         trace.fire('R-split', len(groups))
     for f in gen['lemmas']:
-        obls.append(Obligation('vm::' + f, 'vm', f, props=PROPS, kind='lemma'))
+        obls.append(Obligation('vm::' + f, 'vm', f, props=PROPS + ['C05'], kind='lemma'))
     return {'texts': texts, 'obligations': obls, 'canary_fns': gen['canaries']}
